@@ -2,4 +2,5 @@ SPECIFICATION Spec
 CONSTANT Family = "C12Report"
 INVARIANT InvShape
 INVARIANT InvAcc
+INVARIANT InvCondDisjoint
 CHECK_DEADLOCK FALSE
